@@ -17,6 +17,7 @@ PROP = "C13"
 Fr = fractions.Fraction
 
 LEAF = ("ns.Leaf", (1, 0), "uint8 v\n@sealed\n")
+SVC = ("ns.Svc", (1, 0), "uint8 a\nuint8 K = 1\n@sealed\n---\nuint8 b\n@extent 64\n")
 
 
 def _read(text: typing.Any, env: typing.Optional[typing.Mapping[str, typing.Any]] = None,
@@ -26,7 +27,7 @@ def _read(text: typing.Any, env: typing.Optional[typing.Mapping[str, typing.Any]
     from pydsdl import _namespace_reader as NR
 
     t = textio.MemDefinition("ns.T", (1, 0), text)
-    defs = [t, textio.MemDefinition(*LEAF)]
+    defs = [t, textio.MemDefinition(*LEAF), textio.MemDefinition(*SVC)]
     culprit = t
     if dep_text is not None:
         d = textio.MemDefinition("ns.Dep", (1, 0), dep_text)
@@ -77,7 +78,7 @@ OPERANDS = [
     "(10 ** 400)", "(2 ** 2000)", "(-(10 ** 400))", "400", "-400", "1e3", "true", "false", "'s'", '"\\u00e9"', "''",
     "{1}", "{1, 2/3}", "{true}", "{'a'}", "{1}.count", "{1, 2}.max", "_offset_", "_offset_.min", "nothing", "ns.Leaf.1.0",
     "v", "max", "_extent_", "_bit_length_", '"\\U00110000"', '"\\U0010ffff"', '"\\Uffffffff"', "'\\ud800'", "ns.Leaf.1.0.v",
-    "ns.Leaf.1.0._extent_",
+    "ns.Leaf.1.0._extent_", "ns.Svc.1.0", "ns.Svc.1.0._extent_", "ns.Svc.1.0._bit_length_", "ns.Svc.1.0.K",
 ]
 UNOPS = ["+", "-", "!"]
 
@@ -110,6 +111,8 @@ def make_unary(sink: str):
         "fconst": "float16 X = %s%s\n@sealed\n", "bconst": "bool X = %s%s\n@sealed\n", "cap": "uint8[%s%s] x\n@sealed\n",
         "capi": "bool[<=%s%s] x\n@sealed\n", "extent": "uint8 x\n@extent %s%s\n", "attr": "@print (%s%s).max\n@sealed\n",
         "set": "@print {%s%s, 1}\n@sealed\n", "version": "ns.Leaf.%s%s.0 x\n@sealed\n",
+        "ftype": "%s%s fx\n@sealed\n", "atype": "%s%s[2] fx\n@sealed\n", "vtype": "%s%s[<=2] fx\n@extent 8 * 1000\n",
+        "utype": "@union\nuint8 a\n%s%s fx\n@sealed\n", "ctype": "%s%s CONST = 1\n@sealed\n",
     }
 
     def concrete(u: int, i: int) -> typing.Any:
@@ -187,7 +190,7 @@ TOKEN_TEMPLATES = [
 ]
 POOL = ["", " ", "\n", "\r\n", "\t", "@", "@sealed", "@extent", "@union", "---", "uint8", "void1", "int1", "float17", "[", "]",
         "<=", "<", "(", ")", "{", "}", ",", ".", "1.0", "0", "-1", "**", "/", "%", "=", "==", "'", '"', "\\", "#", "a", "K",
-        "_offset_", "ns.Leaf.1.0", "ns.T.1.0", "truncated", "saturated", "true", "\x00", "\ud800", "\U0010ffff", "é",
+        "_offset_", "ns.Leaf.1.0", "ns.T.1.0", "ns.Svc.1.0", "truncated", "saturated", "true", "\x00", "\ud800", "\U0010ffff", "é",
         "1e400", "0x", "0b2", "1_", "9" * 30]
 
 
@@ -398,7 +401,8 @@ def conditions(tier: str, seed: int) -> typing.List[Cond]:
                                      "1e-400, 10**400, 2**2000, booleans, strings, sets, attributes, identifiers, a type)"
                                      % len(OPERANDS)],
                         witness={"i": 4, "j": 8}, budget=1800.0, need_exhaust=True, key="key_c13"))
-    for sink in ["print", "assert", "const", "fconst", "bconst", "cap", "capi", "extent", "attr", "set", "version"]:
+    for sink in ["print", "assert", "const", "fconst", "bconst", "cap", "capi", "extent", "attr", "set", "version", "ftype",
+                 "atype", "vtype", "utype", "ctype"]:
         out.append(Cond(PROP, "c13.sinks", make_unary, {"sink": sink}, {"u": int, "i": int}, kind="choice",
                         assumptions=["unary form in {none, +, -, !} x operand spelling x value sink"],
                         witness={"u": 2, "i": 13}, budget=600.0, need_exhaust=True, key="key_c13"))
